@@ -42,6 +42,10 @@ func unitFuncs(top *ssa.Function) []*ssa.Function {
 				case "resetOK", "allOldOK", "allNewOK", "getSSID":
 					continue
 				}
+				// (renamed flag bookkeeping: recognised by what it does)
+				if flagBookkeeping(h) {
+					continue
+				}
 				add(h, depth+1)
 			}
 		}
@@ -58,4 +62,21 @@ func bindableParam(p *ssa.Parameter) bool {
 		return true
 	}
 	return len(core.ClosureCallSites(fn)) > 0
+}
+
+// flagBookkeeping: h only stores boolean constants into the elements of ok arrays of its receiver.
+func flagBookkeeping(h *ssa.Function) bool {
+	stores := okStores(h)
+	if len(stores) == 0 {
+		return false
+	}
+	n := 0
+	for _, b := range h.Blocks {
+		for _, in := range b.Instrs {
+			if _, ok := in.(*ssa.Store); ok {
+				n++
+			}
+		}
+	}
+	return n == len(stores)
 }
